@@ -531,5 +531,43 @@ theorem stepperL_returns (P : Prog) (nf : Nat) (plan : Plan) (evs : List Ev)
   obtain ⟨n, hn⟩ := key
   exact ⟨n, by rw [ticksL_terminal_c P n _ ht]; exact hn⟩
 
+/-! ### the `while` loop of the closing part is never stopped by its bound -/
+section
+variable {F : Hook → LCfg → LCfg}
+
+theorem enactLoop_succ (n : Nat) (l : LCfg) :
+    enactLoop F (n+1) l =
+      match l.c.interrupt with
+      | some i => if actionStatus l.c i = .pending && !terminal l.c.st.label then enactLoop F n (runActionL F l i none) else l
+      | none => l := rfl
+
+/-- one more iteration than entries in the plan changes nothing -/
+theorem enactLoop_stable (hF : FAdv F) : ∀ (n : Nat) (l : LCfg), l.plan.length < n → enactLoop F (n+1) l = enactLoop F n l
+  | 0, _, h => by cases h
+  | n+1, l, h => by
+    rw [enactLoop_succ (n+1) l, enactLoop_succ n l]
+    split
+    · rename_i i hi
+      split
+      · rcases runActionL_adv hF l i none with h1 | h1
+        · exact enactLoop_stable hF n _ (by omega)
+        · have hq : Quiet (runActionL F l i none) := by
+            unfold Quiet; rw [h1.2.1, hi]; exact Or.inl h1.2.2
+          rw [enactLoop_of_quiet _ _ hq, enactLoop_of_quiet _ _ hq]
+      · rfl
+    · rfl
+
+theorem enactLoop_fuel (hF : FAdv F) (l : LCfg) : ∀ (m : Nat), l.plan.length < m →
+    enactLoop F m l = enactLoop F (l.plan.length + 1) l := by
+  intro m hm
+  induction m with
+  | zero => cases hm
+  | succ k ih =>
+    by_cases hk : l.plan.length < k
+    · rw [enactLoop_stable hF k l hk]; exact ih hk
+    · have : k = l.plan.length := by omega
+      rw [this]
+end
+
 end L
 end PMF
